@@ -9,6 +9,8 @@ def run(tier, seed):
     vlib.build_harness()
     r, rep = netcommon.mc_and_replay(v, wd, "c03", 1, tier == "thorough", workers=15)
     vlib.require(rep["evaluations"] > 100000 and rep["nontrivial"] > 500, "C03 replay too small")
+    # the same options on engines loaded from serialized data (random lists, each also run after a reload)
+    _, rep_rr = netcommon.mc_and_replay(v, wd, "randr", 300 if tier == "quick" else 3000, False, workers=12, extra=["-seed", str(seed + 3000)])
     # the text side: option spellings -> rule AST (Options.tla)
     rep_o = netcommon.option_spellings(v, wd, 2 if tier == "quick" else 3)
     vlib.require(rep_o["nontrivial"] > 300, "option-spelling replay too small")
